@@ -148,7 +148,7 @@ PYTH3 = [(1, 2, 2, 3), (2, 3, 6, 7), (1, 4, 8, 9), (0, 0, 1, 1), (4, 4, -7, 9), 
 def quad_case(draw, tier="quick"):
     d = draw(st.sampled_from([2, 3]))
     return {"d": d, "n": draw(Z.params(9)), "m": draw(Z.params(9)), "mclass": draw(st.sampled_from(Z.MCLASSES)), "pt": draw(st.integers(0, 5)), "pt2": draw(st.integers(0, 5)),
-            "h": draw(C.ivec(d + 1, 5)), "off": draw(C.hpoint(d, 5)), "cls": draw(st.sampled_from(["Quadric", "Conic"])), "scale": draw(C.scale())}
+            "h": draw(C.ivec(d + 1, 5)), "off": draw(C.hpoint(d, 5)), "cls": draw(st.sampled_from(["Quadric", "Conic"])), "scale": draw(C.scale()), "used": draw(st.booleans())}
 
 
 def run_quad(c):
@@ -172,6 +172,10 @@ def run_quad(c):
     t = Transformation(tmat(c))
     ck = Checker()
     f2 = lambda v: np.array([float(a) for a in v])  # noqa: E731
+    if c.get("used"):
+        # the quadric has been queried before it is transformed (tangency, dual, degeneracy, ...)
+        Z.warm(Q)
+        call("is_tangent", Q.is_tangent, (Line if d == 2 else Plane)(f2([Fraction(a) for a in c["h"]])))
     tQ, f = call("t*quadric", lambda: t * Q)
     if f:
         return [f]
@@ -289,12 +293,14 @@ POLY = ["segment", "polygon", "triangle", "rectangle", "simplex", "cuboid", "seg
 def poly_case(draw, tier="quick"):
     d = draw(st.sampled_from([2, 3]))
     kind = draw(st.sampled_from([k for k in POLY if k in (Z.KINDS2 if d == 2 else Z.KINDS3)]))
-    return {"d": d, "kind": kind, "v": draw(Z.params()), "m": draw(Z.params(9)), "mclass": draw(st.sampled_from(Z.MCLASSES))}
+    return {"d": d, "kind": kind, "v": draw(Z.params()), "m": draw(Z.params(9)), "mclass": draw(st.sampled_from(Z.MCLASSES)), "used": draw(st.booleans())}
 
 
 def run_poly(c):
     x, _ = Z.build(c["kind"], c["d"], c["v"])
     t = Transformation(tmat(c))
+    if c.get("used"):
+        Z.warm(x)
     tag = f"{c['kind']}{c['d']}"
     y, f = call(f"apply:{tag}", lambda: t * x)
     if f:
@@ -325,10 +331,10 @@ LAWS = [
         "t*join(..) = join(t*..), t*meet(..) = meet(t*..) for every arity/kind", shard=400),
     Law("incidence", lambda tier: inc_case(tier), run_inc, nontrivial, lambda c: [c["cfg"], "on" if c["on"] else "off"], {"quick": 1200, "thorough": 30000},
         "contains before = contains after = exact truth value", shard=400),
-    Law("quadric", lambda tier: quad_case(tier), run_quad, nontrivial, lambda c: [f"d{c['d']}", c["cls"]], {"quick": 800, "thorough": 20000},
+    Law("quadric", lambda tier: quad_case(tier), run_quad, nontrivial, lambda c: [f"d{c['d']}", c["cls"]] + (["queried-before-transformed"] if c.get("used") else []), {"quick": 800, "thorough": 20000},
         "point on/off quadric, tangent hyperplane, is_tangent before and after", shard=300),
     Law("crossratio", lambda tier: cr_case(tier), run_cr, nontrivial, lambda c: [c["form"], f"d{c['d']}"], {"quick": 1000, "thorough": 20000},
         "cross ratio of four collinear points / lines / from a viewpoint: exact value and invariance", shard=400),
-    Law("polytope_vertices", lambda tier: poly_case(tier), run_poly, nontrivial, lambda c: [f"{c['kind']}{c['d']}"], {"quick": 500, "thorough": 10000},
+    Law("polytope_vertices", lambda tier: poly_case(tier), run_poly, nontrivial, lambda c: [f"{c['kind']}{c['d']}"] + (["queried-before-transformed"] if c.get("used") else []), {"quick": 500, "thorough": 10000},
         "transformed polytope has the images of vertices/edges/faces in order", shard=300),
 ]
